@@ -14,6 +14,7 @@ namespace mp11 = boost::mp11;
 using k_inter   = rgb8_view_t;                                   // interleaved, pointer x-iterator
 using k_interc  = rgb8c_view_t;
 using k_gray16  = gray16_view_t;
+using k_g16step = dynamic_xy_step_type<gray16_view_t>::type;          // single channel, step in x
 using k_rgba32f = rgba32f_view_t;
 using k_planar  = rgb8_planar_view_t;                            // planar_pixel_iterator
 using k_planar16= rgb16_planar_view_t;
